@@ -25,6 +25,8 @@ CONFIGS = [
     ("#[eq(key = key_ne(&$))] #[ord(key = key_eq(&$))]", "ne"),
     ("#[eq(by = by_b)] #[ord(key = key_ne(&$))]", None),
     ("#[partial_eq(ignore)] #[eq(ignore)]", None),
+    ("#[eq(key = key_ne(&$))] #[ord(by = by_o)]", "ne"), ("#[eq(key = key_eq(&$))] #[ord(by = by_o)]", "eq"), ("#[eq(key = key_f(&$))] #[ord(key = key_eq(&$))]", "ne"),
+    ("#[eq(by = by_b)] #[ord(by = by_o)]", None), ("#[ord(key = key_ne(&$))] #[partial_eq(key = key_eq(&$))]", "ne"),
 ]
 FIELD_TYPES = [("u8", True), ("NE", False), ("f32", False), ("Option<NE>", False), ("Vec<u8>", True), ("T", None)]
 
